@@ -10,6 +10,7 @@ import (
 	"fmt"
 	"math"
 	"os"
+	"path/filepath"
 	"strconv"
 	"strings"
 	"sync"
@@ -708,6 +709,42 @@ func (g *srvGen) opInject() {
 	g.s.Snap()
 }
 
+// opTear stops the server, puts the directory into one of the torn states a
+// crash can leave behind (empty key file after truncate-before-write, a report
+// file cut in the middle of the records a start re-appends), and starts it again.
+func (g *srvGen) opTear() error {
+	r := g.r
+	snap := g.s.E.S.VerifSnapshot()
+	dir := g.s.E.Dir
+	if !snap.GCAAvailable && r.Chance(60) {
+		if err := g.s.E.Stop(); err != nil {
+			return err
+		}
+		os.WriteFile(filepath.Join(dir, "gcaPubKey.dat"), nil, 0644)
+		g.s.T.Count("tear:gca-empty")
+		g.s.T.Line("srv.tear kind=gca")
+		return g.s.restartAfterStop()
+	}
+	// crash in the middle of a start: first find out what a start appends
+	before := fileLen(filepath.Join(dir, "equipment-reports.dat"))
+	if err := g.s.Restart(); err != nil {
+		return err
+	}
+	after := fileLen(filepath.Join(dir, "equipment-reports.dat"))
+	if after <= before {
+		return nil
+	}
+	if err := g.s.E.Stop(); err != nil {
+		return err
+	}
+	again := (after - before) / 80
+	keep := before/80 + int64(r.Intn(int(again)+1))
+	os.Truncate(filepath.Join(dir, "equipment-reports.dat"), keep*80)
+	g.s.T.Count("tear:reports-prefix")
+	g.s.T.Line("srv.tear kind=reports n=%d", keep)
+	return g.s.restartAfterStop()
+}
+
 // weights per focus: dgram, authorize, clock, tick, restart, stats, sync, authserver, migrate, register, impact, rotate
 var focusWeights = map[string][]int{
 	"C01": {70, 6, 8, 2, 1, 3, 3, 1, 1, 1, 1, 1},
@@ -719,6 +756,7 @@ var focusWeights = map[string][]int{
 	"C12": {35, 10, 14, 5, 4, 10, 6, 6, 5, 3, 1, 1},
 	"C17": {5, 8, 2, 0, 5, 1, 8, 36, 30, 5, 0, 0},
 	"C13": {25, 10, 8, 3, 3, 6, 6, 3, 3, 1, 2, 2, 28},
+	"C05": {30, 12, 10, 4, 8, 4, 2, 1, 1, 6, 1, 3, 0, 16},
 	"C10": {25, 6, 8, 2, 2, 2, 20, 8, 8, 1, 0, 2, 16},
 }
 
@@ -745,9 +783,29 @@ func runSrvScenario(focus string, seed uint64, size int, t *Trace) error {
 	if w == nil {
 		w = focusWeights["C12"]
 	}
+	if focus == "C05" && r.Chance(50) {
+		// die at a persistence point: the file has been written, memory has not been updated yet
+		point := []string{"persist:auth-written", "persist:stats-written"}[r.Intn(2)]
+		countdown := 1 + r.Intn(4)
+		t.Line("# crashdir %s", s.E.Dir)
+		server.VerifSetPoint(point, func() {
+			if s.InStart {
+				return
+			}
+			countdown--
+			if countdown > 0 {
+				return
+			}
+			t.Line("%s => CRASH", s.Pending)
+			t.Line("# crashed at %s now=%d", point, glow.CurrentTimeslot())
+			os.Exit(77)
+		})
+	}
 	ticks := 0
 	if focus == "C07" && r.Chance(40) {
 		g.opRegisterRace()
+	} else if focus == "C05" && r.Chance(40) {
+		// stay unregistered for a while (torn registration states)
 	} else if focus != "C07" || r.Chance(50) {
 		// most scenarios register right away
 		g.opRegister()
@@ -795,6 +853,11 @@ func runSrvScenario(focus string, seed uint64, size int, t *Trace) error {
 			s.Rotate()
 		case 12:
 			g.opInject()
+		case 13:
+			if err := g.opTear(); err != nil {
+				t.DumpStats()
+				return nil
+			}
 		}
 	}
 	if !s.Lost {
@@ -860,6 +923,29 @@ func runMany(child []string, base uint64, n int, par int, size int, out *os.File
 			}
 		}
 		out.WriteString(strings.Join(keep, "\n") + "\n")
+		if r.code == 77 {
+			// the scenario killed itself at a persistence point: start again on the same directory
+			dir, now := "", "0"
+			for _, l := range lines {
+				if strings.HasPrefix(l, "# crashdir ") {
+					dir = strings.TrimPrefix(l, "# crashdir ")
+				}
+				if i := strings.Index(l, " now="); strings.HasPrefix(l, "# crashed at") && i > 0 {
+					now = l[i+5:]
+				}
+			}
+			code, text := selfExec(60*1e9, "recover", dir, now, strconv.FormatUint(base+uint64(r.idx), 10))
+			for _, l := range strings.Split(text, "\n") {
+				if strings.HasPrefix(l, "srv.") || strings.HasPrefix(l, "# ") || strings.HasPrefix(l, "c05.") {
+					out.WriteString(l + "\n")
+				}
+			}
+			if code != 0 {
+				crashes++
+				fmt.Fprintf(out, "crash seed=%d exit=%d => start after a crash at a persistence point failed\n", base+uint64(r.idx), code)
+			}
+			continue
+		}
 		if r.code != 0 {
 			crashes++
 			fmt.Fprintf(out, "crash seed=%d exit=%d => %s\n", base+uint64(r.idx), r.code, strings.ReplaceAll(panicLine, " => ", " "))
@@ -869,6 +955,25 @@ func runMany(child []string, base uint64, n int, par int, size int, out *os.File
 }
 
 func init() {
+	// recover <dir> <now> <seed>: start a server on a directory left behind by a killed scenario
+	commands["recover"] = func(args []string) int {
+		now, _ := strconv.ParseUint(args[1], 10, 32)
+		seed, _ := strconv.ParseUint(args[2], 10, 64)
+		t := NewTrace(os.Stdout)
+		s := &Srv{T: t, Keys: map[glow.PublicKey]bool{}, seen: map[string]bool{}}
+		s.E = &Env{Dir: args[0], Temp: detKey(seed, 1000), GCA: detKey(seed, 1001), HoldBG: true}
+		glow.SetCurrentTimeslot(uint32(now))
+		defer os.RemoveAll(args[0])
+		if err := s.restartAfterStop(); err != nil {
+			return 3
+		}
+		t.Count("crashpoint-recovered")
+		s.Snap()
+		s.Disk()
+		s.E.Stop()
+		t.DumpStats()
+		return 0
+	}
 	commands["srv"] = func(args []string) int {
 		// srv <focus> <seedbase> <n> <size> <outfile>
 		base, _ := strconv.ParseUint(args[1], 10, 64)
